@@ -8,6 +8,7 @@ def run(ctx):
     P += common.family_small(ctx.pick(300, 5000), ctx.seed + 1000)
     P += semcheck.gen_programs(ctx.seed * 7919 + 13, ctx.pick(60, 800), "strat")
     P += common.negloop_templates(ctx.pick(250, 3000), ctx.seed + 2200)
+    P += common.single_literal_family([(3, 10)] if ctx.quick else [(3, 10), (1, 1), (0, 1)])      # exhaustive: 1764 programs
     # negative loops next to / below open positive cycles (4-6 derived atoms)
     P += common.cyclic_family(ctx.pick(400, 6000), ctx.seed + 2100, evidence=0.2, neg=0.1, neg_derived=0.18)
     common.sem_check(ctx, P, variants=lambda p: [("default", {"text": progs.render(p)})], level="exploration")
